@@ -255,6 +255,13 @@ struct Gen<'t, 'a> {
     lookups: Vec<Lookup>,
     /// lookups only reachable through sequence-lookup records
     nested_only: Vec<bool>,
+    /// extension mode (section nested-attach): sequence-lookup records may point at lookups of
+    /// types 3-6. Off, the generator reads the tape exactly as it always did.
+    nested_attach: bool,
+    /// glyphs of the input sequence the records being generated refer to (extension mode)
+    hint: Vec<Gid>,
+    /// added to the coverage densities of attachment subtables (extension mode)
+    cov_boost: u32,
 }
 
 impl<'t, 'a> Gen<'t, 'a> {
@@ -317,7 +324,7 @@ impl<'t, 'a> Gen<'t, 'a> {
 
     fn gen_cursive(&mut self) -> Subtable {
         let t = &mut *self.t;
-        let cov = gen_cov(t, &self.u.nonmarks, 60);
+        let cov = gen_cov(t, &self.u.nonmarks, 60 + self.cov_boost);
         // fonts commonly put the entry anchor at x = 0 (that is also where allsorts' pen model
         // for cursive links agrees with the specification)
         let entry_x0 = t.chance(45);
@@ -348,8 +355,8 @@ impl<'t, 'a> Gen<'t, 'a> {
 
     fn gen_mark_base(&mut self) -> Subtable {
         let t = &mut *self.t;
-        let mark_cov = gen_cov(t, &self.u.marks, 65);
-        let base_cov = gen_cov(t, &self.u.nonmarks, 60);
+        let mark_cov = gen_cov(t, &self.u.marks, 65 + self.cov_boost);
+        let base_cov = gen_cov(t, &self.u.nonmarks, 60 + self.cov_boost);
         let class_count = 1 + t.below(3) as u16;
         let marks = Self::gen_marks(t, &mark_cov, class_count);
         let bases = (0..base_cov.len()).map(|_| Self::gen_anchor_row(t, class_count)).collect();
@@ -358,7 +365,7 @@ impl<'t, 'a> Gen<'t, 'a> {
 
     fn gen_mark_lig(&mut self) -> Subtable {
         let t = &mut *self.t;
-        let mark_cov = gen_cov(t, &self.u.marks, 65);
+        let mark_cov = gen_cov(t, &self.u.marks, 65 + self.cov_boost);
         let pool = if self.u.ligs.is_empty() || t.chance(15) { self.u.nonmarks.clone() } else { self.u.ligs.clone() };
         let lig_cov = gen_cov(t, &pool, 75);
         let class_count = 1 + t.below(3) as u16;
@@ -374,8 +381,8 @@ impl<'t, 'a> Gen<'t, 'a> {
 
     fn gen_mark_mark(&mut self) -> Subtable {
         let t = &mut *self.t;
-        let mark1_cov = gen_cov(t, &self.u.marks, 65);
-        let mark2_cov = gen_cov(t, &self.u.marks, 65);
+        let mark1_cov = gen_cov(t, &self.u.marks, 65 + self.cov_boost);
+        let mark2_cov = gen_cov(t, &self.u.marks, 65 + self.cov_boost);
         let class_count = 1 + t.below(3) as u16;
         let marks = Self::gen_marks(t, &mark1_cov, class_count);
         let mark2s = (0..mark2_cov.len()).map(|_| Self::gen_anchor_row(t, class_count)).collect();
@@ -383,7 +390,47 @@ impl<'t, 'a> Gen<'t, 'a> {
     }
 
     /// a nested lookup (type 1 or 2) appended to the list; returns its index
+    /// extension mode: a nested lookup of type 3-6 (cursive, mark-base, mark-ligature,
+    /// mark-mark), new or an existing one of those types
+    fn gen_nested_attach(&mut self, parent_flags: &Flags) -> u16 {
+        let has_ligs = !self.u.ligs.is_empty();
+        let ltype = [3u16, 4, 5, 6][self.t.weighted(&[12, 42, if has_ligs { 18 } else { 4 }, 28])];
+        let candidates: Vec<usize> = self.lookups.iter().enumerate().filter(|(_, l)| l.ltype == ltype).map(|(i, _)| i).collect();
+        if !candidates.is_empty() && self.t.chance(25) {
+            return candidates[self.t.below(candidates.len())] as u16;
+        }
+        let nsets = self.gdef.as_ref().map(|g| g.mark_sets.len()).unwrap_or(0);
+        let mut flags = Flags::default();
+        let wf = if ltype == 6 { 30 } else { 18 };
+        match self.t.weighted(&[50, wf, if nsets > 0 { wf } else { 0 }, 12]) {
+            0 => {}
+            1 => flags.mark_attach_type = 1 + self.t.below(2) as u8,
+            2 => flags.mark_filter_set = Some(self.t.below(nsets) as u16),
+            _ => flags = *parent_flags,
+        }
+        if ltype == 3 {
+            flags.rtl = self.t.chance(65);
+        } else {
+            flags.rtl = false;
+        }
+        self.cov_boost = 25;
+        let st = match ltype {
+            3 => self.gen_cursive(),
+            4 => self.gen_mark_base(),
+            5 => self.gen_mark_lig(),
+            _ => self.gen_mark_mark(),
+        };
+        self.cov_boost = 0;
+        let l = Lookup { ltype, flags, subtables: vec![st], extension: self.t.chance(15), share: self.t.chance(50) };
+        self.lookups.push(l);
+        self.nested_only.push(true);
+        (self.lookups.len() - 1) as u16
+    }
+
     fn gen_nested(&mut self, parent_flags: &Flags) -> u16 {
+        if self.nested_attach && !self.u.marks.is_empty() && !self.u.nonmarks.is_empty() && self.gdef.is_some() && self.t.chance(70) {
+            return self.gen_nested_attach(parent_flags);
+        }
         // sometimes reuse an existing type 1/2 lookup
         let candidates: Vec<usize> = self.lookups.iter().enumerate().filter(|(_, l)| l.ltype <= 2).map(|(i, _)| i).collect();
         if !candidates.is_empty() && self.t.chance(25) {
@@ -408,7 +455,14 @@ impl<'t, 'a> Gen<'t, 'a> {
         let n = 1 + self.t.below(2);
         let mut v = Vec::new();
         for _ in 0..n {
-            let seq = self.t.below(input_len) as u16;
+            let mut seq = self.t.below(input_len) as u16;
+            if self.nested_attach && self.hint.len() == input_len {
+                // prefer a record on a mark of the input sequence
+                let marks: Vec<usize> = (0..input_len).filter(|i| self.u.classes[self.hint[*i] as usize] == 3).collect();
+                if !marks.is_empty() && self.t.chance(65) {
+                    seq = marks[self.t.below(marks.len())] as u16;
+                }
+            }
             let li = self.gen_nested(flags);
             v.push((seq, li));
         }
@@ -439,7 +493,9 @@ impl<'t, 'a> Gen<'t, 'a> {
         let back: Vec<Gid> = window[..back_n].iter().rev().copied().collect();
         let input: Vec<Gid> = window[back_n..back_n + input_n].to_vec();
         let look: Vec<Gid> = window[back_n + input_n..].to_vec();
+        self.hint = input.clone();
         let records = self.gen_records(input_n, flags);
+        self.hint.clear();
         let fmt = 1 + self.t.below(3);
         // a decoy rule that is tried first and (usually) fails
         let decoy = self.t.chance(30);
@@ -524,6 +580,18 @@ impl<'t, 'a> Gen<'t, 'a> {
                 }
             }
         }
+    }
+
+    /// extension mode: one more lookup, of type 7 or 8
+    fn gen_context_lookup(&mut self) {
+        let chained = self.t.chance(50);
+        let ltype = if chained { 8 } else { 7 };
+        let g = self.gdef.clone();
+        let flags = if self.t.chance(55) { Flags::default() } else { gen_flags(self.t, &self.u, g.as_ref(), ltype) };
+        let st = self.gen_context(chained, &flags);
+        let l = Lookup { ltype, flags, subtables: vec![st], extension: self.t.chance(15), share: self.t.chance(50) };
+        self.lookups.push(l);
+        self.nested_only.push(false);
     }
 
     fn gen_lookup(&mut self) {
@@ -614,6 +682,12 @@ fn gen_kern(t: &mut Tape, u: &Universe, seed: &[Gid]) -> KernModel {
 }
 
 pub fn build_program(tape: &[u32]) -> Program {
+    build_program_mode(tape, false)
+}
+
+/// `nested_attach`: extension mode of section nested-attach (GPOS always present, more marks in
+/// the seed string, sequence-lookup records pointing at lookups of types 3-6 too)
+pub fn build_program_mode(tape: &[u32], nested_attach: bool) -> Program {
     let mut tape = Tape { v: tape, pos: 0 };
     let t = &mut tape;
     let n = 5 + t.below(14) as u16; // glyph ids 1..=n
@@ -653,7 +727,7 @@ pub fn build_program(tape: &[u32]) -> Program {
     let seed_len = 3 + t.below(8);
     let mut seed: Vec<Gid> = Vec::new();
     while seed.len() < seed_len {
-        if !u.marks.is_empty() && !seed.is_empty() && t.chance(40) {
+        if !u.marks.is_empty() && !seed.is_empty() && t.chance(if nested_attach { 58 } else { 40 }) {
             seed.push(u.marks[t.below(u.marks.len())]);
         } else if !u.nonmarks.is_empty() {
             seed.push(u.nonmarks[t.below(u.nonmarks.len())]);
@@ -662,7 +736,7 @@ pub fn build_program(tape: &[u32]) -> Program {
         }
     }
 
-    let shape = t.weighted(&[70, 12, 18]); // GPOS only / kern only / both
+    let shape = if nested_attach { t.weighted(&[85, 0, 15]) } else { t.weighted(&[70, 12, 18]) }; // GPOS only / kern only / both
     let with_gpos = shape != 1;
     let with_kern = shape != 0;
 
@@ -670,10 +744,16 @@ pub fn build_program(tape: &[u32]) -> Program {
     let mut custom: Vec<[u8; 4]> = Vec::new();
     let mut lang = None;
     if with_gpos {
-        let mut g = Gen { t, u, gdef: gdef.clone(), seed: seed.clone(), lookups: Vec::new(), nested_only: Vec::new() };
+        let mut g = Gen { t, u, gdef: gdef.clone(), seed: seed.clone(), lookups: Vec::new(), nested_only: Vec::new(), nested_attach, hint: Vec::new(), cov_boost: 0 };
         let nl = 1 + g.t.weighted(&[30, 30, 20, 12, 8]);
         for _ in 0..nl {
             g.gen_lookup();
+        }
+        if nested_attach {
+            if !g.lookups.iter().any(|l| l.ltype == 7 || l.ltype == 8) {
+                g.gen_context_lookup();
+            }
+            g.gen_context_lookup();
         }
         let lookups = g.lookups;
         let nested_only = g.nested_only;
@@ -1368,9 +1448,26 @@ pub fn check_program(p: &Program, rec: &mut Rec) -> CaseResult {
             }
         }
         let mut cls: Vec<String> = Vec::new();
-        let verdict = diff_all(p, s, &obs, &r0, 0, false, &mut cls);
+        let mut verdict = diff_all(p, s, &obs, &r0, 0, false, &mut cls);
         let mut used = &r0;
         let attributed: RunResult;
+        // a cursive lookup applied through a sequence-lookup record: the specification does not
+        // say which side of the link the glyph at the recorded position is; both readings pass
+        let readings: Vec<u32> = if r0.notes.classes.contains("nested:cursive-attempt") || rall.notes.classes.contains("nested:cursive-attempt") { vec![0, dev::READ_CURS_ENTRY] } else { vec![0] };
+        let entry_reading: RunResult;
+        if verdict.is_some() && readings.len() > 1 {
+            let rb = rc.run(s, &steps, dev::READ_CURS_ENTRY);
+            if !rb.notes.overflow && rb.notes.ambiguous.is_empty() {
+                let mut c2 = Vec::new();
+                if diff_all(p, s, &obs, &rb, dev::READ_CURS_ENTRY, false, &mut c2).is_none() {
+                    cls = c2;
+                    cls.push("nested-cursive:entry-side-reading".into());
+                    entry_reading = rb;
+                    used = &entry_reading;
+                    verdict = None;
+                }
+            }
+        }
         if let Some((sig, d)) = verdict {
             // attribution by defect model
             let kern_unreadable = match (&p.kern, &b.kern) {
@@ -1392,22 +1489,27 @@ pub fn check_program(p: &Program, rec: &mut Rec) -> CaseResult {
                 }
                 Some((rs, kern_err))
             };
-            let explains = |set: u32, cls_out: &mut Vec<String>| -> Option<RunResult> {
-                let (rs, kern_err) = predict(set)?;
-                let mut c2 = Vec::new();
-                let d = diff_all(p, s, &obs, &rs, set, kern_err, &mut c2);
-                if let Ok(path) = std::env::var("C05_DEBUG") {
-                    use std::io::Write;
-                    if let Ok(mut f) = std::fs::OpenOptions::new().create(true).append(true).open(path) {
-                        let _ = writeln!(f, "  try set {:#x}: {:?}", set, d);
+            let explains = |set0: u32, cls_out: &mut Vec<String>| -> Option<RunResult> {
+                for reading in readings.iter() {
+                    let set = set0 | *reading;
+                    let (rs, kern_err) = match predict(set) {
+                        Some(x) => x,
+                        None => continue,
+                    };
+                    let mut c2 = Vec::new();
+                    let d = diff_all(p, s, &obs, &rs, set, kern_err, &mut c2);
+                    if let Ok(path) = std::env::var("C05_DEBUG") {
+                        use std::io::Write;
+                        if let Ok(mut f) = std::fs::OpenOptions::new().create(true).append(true).open(path) {
+                            let _ = writeln!(f, "  try set {:#x}: {:?}", set, d);
+                        }
+                    }
+                    if d.is_none() {
+                        *cls_out = c2;
+                        return Some(rs);
                     }
                 }
-                if d.is_none() {
-                    *cls_out = c2;
-                    Some(rs)
-                } else {
-                    None
-                }
+                None
             };
             let mut found: Option<(u32, RunResult)> = None;
             // (a) every deviation allsorts currently exhibits (decided once per process by the
@@ -1925,6 +2027,8 @@ impl Property for C05 {
         ctx.section("device-variation", n, strategy_len(TAPE_LEN + ext::DEV_TAIL), |tape, rec| check_program(&ext::build_program_dev(tape), rec));
         let n = ctx.cases(14_000, 400_000);
         ctx.section("kern-tables", n, strategy_len(TAPE_LEN + ext::KERN_TAIL), |tape, rec| check_program(&ext::build_program_kern(tape), rec));
+        let n = ctx.cases(20_000, 400_000);
+        ctx.section("nested-attach", n, strategy(), |tape, rec| check_program(&build_program_mode(tape, true), rec));
         let n = ctx.cases(28_000, 600_000);
         ctx.section("gsub-marklig", n, strategy_len(ext::LIGA_TAPE), |tape, rec| ext::check_liga_case(tape, rec));
     }
